@@ -13,4 +13,8 @@ var commonAssumptions = []string{
 func init() {
 	prop("C12", "Decides, for every program and input at once, the structural clause of the sandbox property: every process start and every call through the configurable open function in package interp is dominated (in its function or transitively at every call site) by the matching deny-flag test that returns a non-nil error; OS APIs are referenced only at tabled places; the flags and the open function are definitely assigned from the like-named Config fields and written nowhere else; '>'/'>>' map to O_TRUNC/O_APPEND exclusively; the name \"-\" is exempt from the read deny. Modulo the trusted base (stdlib is the only route to the OS; embedder-supplied Funcs/OpenFile/ShellCommand are out of scope) this is a complete argument for the property. Not decided: behaviour of user-supplied callbacks.",
 		commonAssumptions, "R-SANDBOX")
+	prop("C14", "Decides the structural clause of reuse: for each of the fields of struct interp, all functions that can dirty it (stores, nested stores, map/slice content writes, address escapes into written-through holders, mutating calls on the referent) are enumerated over SSA, and each dirtied field must be definitely re-established on every path of resetCore, of setExecuteConfig's success paths, of resetVars (program-variable storage only: globals, arrays, string-valued specials and derived companions), of ResetRand, of Execute+ExecuteContext (context fields), or be in the scratch table with its reason. Execute and ExecuteContext call resetCore before executeAll. Not decided: equality of outputs as such (it follows only under the scratch-table arguments), behaviour of caller-owned streams.",
+		commonAssumptions, "R-RESET")
+	prop("C19", "Decides (a) order-independence of parsing: every range over a map in lexer, parser, internal/ast, internal/resolver, internal/compiler, internal/parseutil and every callback handed to IterVars/IterFuncs has an order-insensitive body (keyed writes, deletes, integer counters, min/max reductions, constant returns, collect-then-sort); (b) immutability of the shared Program: a flow-insensitive fixpoint over SSA derives every reference into Program-owned memory (through field/index/slice chains, loads, struct copies, interp fields initialised from the Program, calls and returns, interface dispatch via CHA) and shows that no store, map update, delete, append, copy or tabled mutator (regexp Longest, sort.*) targets one, and that package-level variables are written only during init. Not decided: data races inside user-supplied Funcs or writers; regexp/stdlib internals (trusted: Regexp is safe for concurrent use).",
+		commonAssumptions, "R-MAPRANGE", "R-IMMUT")
 }
